@@ -23,7 +23,7 @@ func C08_controlwriter_limit() {
 	vAssert(limit <= 125, "cw.limit_at_most_125")
 	lens := []int{0, 1, 20, 62, 63, 100, 124, 125, 126}
 	total := 0
-	writes := 2 + vTier()
+	writes := 3 + vTier()
 	for i := 0; i < writes; i++ {
 		l := lens[vChoose("wlen", len(lens))]
 		p := make([]byte, l)
